@@ -1,5 +1,8 @@
 (* C14 driver.  One case per line:
-     <P> <ppn_attach> <ppn_sim> <noncontig> <flavour> <dtype> <count> <contributions: P*count hex integers, comma separated or -> [<dup>]
+     <P> <ppn_attach> <ppn_sim> <noncontig> <flavour> <dtype> <count> <contributions: P*count hex integers, comma separated or -> [<dup>
+       [<sendcount> <size of sendtype> <recvcount> <size of recvtype> <the contributions as bytes: P * L hex integers or ->]]
+   with the last five fields `agb=` is what shmem_allgather_sig gives for these signatures (the array has P * L bytes, L = the bytes one
+   rank contributes = length of the byte list / P), `undef` when the model says that an MPI call is erroneous
    dup = 1: everything is evaluated on the attachment a duplicate of the communicator inherits (comms_dup); `dup=` are the
    MPI calls of that MPI_Comm_dup, life = live node communicators after attach(+dup) / after freeing the duplicate / after detach
    prints one line:  for every rank  `g=<ir>/<is>/<er>/<es>|none w=<0|1> ag=<ints> pre=<ints> calls=<m>;<ag>;<pre>;<cp>;<f> life=<live after attach>/<after detach>`
@@ -11,13 +14,19 @@ let nats l = String.concat "," (List.map (fun n -> string_of_int (int_of_nat n))
 let rec take n l = if n = 0 then [] else match l with [] -> [] | x :: t -> x :: take (n - 1) t
 let rec drop n l = if n = 0 then l else match l with [] -> [] | _ :: t -> drop (n - 1) t
 let () = iter_lines (fun line ->
-  match (match words line with [a; b; c; d; e; f; g; h] -> [a; b; c; d; e; f; g; h; "0"] | w -> w) with
-  | [p; pa; ppn; nonc; fl; d; cnt; contribs; dup] ->
+  match (match words line with [a; b; c; d; e; f; g; h] -> [a; b; c; d; e; f; g; h; "0"; "0"; "1"; "0"; "1"; "-"]
+         | [a; b; c; d; e; f; g; h; i] -> [a; b; c; d; e; f; g; h; i; "0"; "1"; "0"; "1"; "-"] | w -> w) with
+  | [p; pa; ppn; nonc; fl; d; cnt; contribs; dup; scount; ssize; rcount; rsize; bytes] ->
     let dup = (dup = "1") in
     let p = int_of_string p and pa = int_of_string pa and ppn = int_of_string ppn and nonc = int_of_string nonc
     and fl = int_of_string fl and d = int_of_string d and cnt = int_of_string cnt in
     let all = pl_of_string contribs in
     let contrib (r : nat) = take cnt (drop (int_of_nat r * cnt) all) in
+    let allb = pl_of_string bytes in
+    let lb = if p > 0 then List.length allb / p else 0 in
+    let contribb (r : nat) = take lb (drop (int_of_nat r * lb) allb) in
+    let snd = { sg_count = nat_of_int (int_of_string scount); sg_size = nat_of_int (int_of_string ssize) }
+    and rcv = { sg_count = nat_of_int (int_of_string rcount); sg_size = nat_of_int (int_of_string rsize) } in
     let nd (r : nat) : nat =
       let r = int_of_nat r in
       nat_of_int (if ppn <= 0 then 0 else if nonc <> 0 then r mod ((p + ppn - 1) / ppn) else r / ppn) in
@@ -44,8 +53,9 @@ let () = iter_lines (fun line ->
       let s4 = l_detach s3 in
       let life = Printf.sprintf "%d/%d/%d" (List.length s2.live) (List.length s3.live) (List.length s4.live) in
       let dupcalls = if dup then nats (calls_dup (s1.attr <> None)) else "-" in
-      Printf.sprintf "g=%s w=%d ag=%s pre=%s calls=%s;%s;%s;%s;%s life=%s dup=%s" g (if w then 1 else 0) (string_of_pl ag) (string_of_pl pre)
-        (nats cm) (nats ca) (nats cp) (nats cc) (nats cf) life dupcalls in
+      let agb = (match shmem_allgather_sig np comms contribb snd rcv (nat_of_int (p * lb)) f nr with Some l -> string_of_pl l | None -> "undef") in
+      Printf.sprintf "g=%s w=%d ag=%s pre=%s calls=%s;%s;%s;%s;%s life=%s dup=%s agb=%s" g (if w then 1 else 0) (string_of_pl ag) (string_of_pl pre)
+        (nats cm) (nats ca) (nats cp) (nats cc) (nats cf) life dupcalls agb in
     print_endline (String.concat " | " (List.init p one))
   | [] -> ()
   | _ -> print_endline "BAD_PARAMS")
